@@ -11,7 +11,7 @@ CFG = dict(
     coq_sample={"quick": 20, "thorough": 60},
     sig=tl_sig,
     harness_timeout={"quick": 300, "thorough": 3600},
-    rule=TL_RULE_COMMON + "C06 families (exactly-once, timeouts, progress): pushes that time out against a full lane with every worker pinned (never started), cancel inside every Done()/Err() call PushTask makes (hook: wait for the pushed task to start, cancel, then answer), cancel when every worker is idle again after work, cancel with a task in the queue goroutine's hands (after take+count, before the blocking offer, hand-over in flight), work sharing with a pinned worker, back-to-back New/push/cancel/Wait on one P, 400 small + 40 big stress runs (thorough x10)",
+    rule=TL_RULE_COMMON + "C06 families (exactly-once, timeouts, progress): Task values of every dynamic type (pointer, func adapter, structs with slice/map fields, equal comparable values, zero-size values) each started exactly once with LastPanic staying nil; pushes that time out against a full lane with every worker pinned (never started), cancel inside every Done()/Err() call PushTask makes (hook: wait for the pushed task to start, cancel, then answer), cancel when every worker is idle again after work, cancel with a task in the queue goroutine's hands (after take+count, before the blocking offer, hand-over in flight), work sharing with a pinned worker, back-to-back New/push/cancel/Wait on one P, 400 small + 40 big stress runs (thorough x10)",
     trusted_base=TL_TB,
     assumptions=TL_ASSUME,
 )
